@@ -20,13 +20,17 @@ def ty_numel(ty):
     return sum(ty_numel(t) for t in ty[1])
 
 
-def random_type(rng, depth=2, sizes=SIZES):
+def random_type(rng, depth=2, sizes=SIZES, p_unit_sum=0.0):
+    """`p_unit_sum`: probability of a ONE-component sum over the unit type, `0 + () + 0`: an index type with one element whose
+    inhabitant is not the unit axis (patterned JSON weights can spell it)"""
+    if p_unit_sum and rng.random() < p_unit_sum:
+        return ('sum', [('atom', 1)])
     c = rng.random()
     if depth == 0 or c < 0.5:
         return ('atom', rng.choice(sizes))
     k = rng.randint(2, 3) if c < 0.8 else 2
     kind = 'prod' if c < 0.8 else 'sum'
-    return (kind, [random_type(rng, depth - 1, sizes) for _ in range(k)])
+    return (kind, [random_type(rng, depth - 1, sizes, p_unit_sum) for _ in range(k)])
 
 
 POOL_TY = {}      # id(PhysicalAxis) -> repr of the index type it was created for (axes in `pool` are alive, so ids are unique)
